@@ -17,6 +17,7 @@ package c13
 import (
 	"fmt"
 	"os"
+	"runtime/debug"
 	"sort"
 	"strings"
 	"sync"
@@ -25,6 +26,7 @@ import (
 	"time"
 
 	"github.com/sanonone/kektordb/internal/verif/explore"
+	"github.com/sanonone/kektordb/internal/verif/shim/vsched"
 	"github.com/sanonone/kektordb/internal/verif/vk"
 	"github.com/sanonone/kektordb/pkg/core/distance"
 	"github.com/sanonone/kektordb/pkg/engine"
@@ -259,22 +261,99 @@ func compressor(name string) explore.Thread {
 func deleter(name, id string) explore.Thread {
 	return simple(name, "vdel:"+id, func(w *world) error { return w.e.VDelete("i", id) })
 }
+
+// getter reads a vector and then *uses* the result, as an HTTP handler encoding it would: the
+// returned slice must stay the caller's own copy. Between the return and the use there is a
+// scheduling point, so that an index drop / compression / delete + slot reuse can happen in
+// between; a fault while reading (unmapped arena) surfaces as a panic of this thread.
 func getter(name, id string) explore.Thread {
 	return guard(name, func(w *world) {
 		w.do(name, "vget", id, func() string {
+			debug.SetPanicOnFault(true)
 			d, err := w.e.VGet("i", id)
 			if err != nil {
 				return "err"
+			}
+			first := append([]float32(nil), d.Vector...)
+			vsched.Point("harness:use-vget-result")
+			for i, v := range d.Vector {
+				if v != first[i] {
+					w.note("vector-changed", fmt.Sprintf("VGet(%s) returned %v; when the caller read it again it was %v", id, first, d.Vector))
+					break
+				}
 			}
 			return fmt.Sprint(len(d.Vector))
 		})
 	})
 }
+
 func searcher(name string) explore.Thread {
 	return guard(name, func(w *world) {
-		w.do(name, "search", "", func() string {
-			_, err := w.e.VSearch("i", []float32{1, 1}, 2, "", "", 10, 1, nil)
-			return errStr(err)
+		for i := 0; i < 2; i++ {
+			w.do(name, "search", "", func() string {
+				ids, err := w.e.VSearch("i", []float32{1, 1}, 3, "", "", 10, 1, nil)
+				if err != nil {
+					return "err"
+				}
+				return "ids=" + strings.Join(ids, ",")
+			})
+		}
+	})
+}
+
+// oracleSearch (the concurrent clause of C06): a search never returns an id whose deletion was
+// acknowledged before the search began, never an id that was not added before it ended, no
+// duplicates, at most k.
+func oracleSearch(base []string, k int) oracle {
+	return func(w *world) (string, string) {
+		for _, c := range w.calls {
+			if c.op != "search" || !strings.HasPrefix(c.ret, "ids=") {
+				continue
+			}
+			var ids []string
+			if r := strings.TrimPrefix(c.ret, "ids="); r != "" {
+				ids = strings.Split(r, ",")
+			}
+			if len(ids) > k {
+				return "search-more-than-k", describe(w.calls)
+			}
+			seen := map[string]bool{}
+			for _, id := range ids {
+				if seen[id] {
+					return "search-duplicate", describe(w.calls)
+				}
+				seen[id] = true
+				known := false
+				for _, b := range base {
+					if b == id {
+						known = true
+					}
+				}
+				for _, o := range w.calls {
+					if o.op == "vadd" && o.arg == id && o.start < c.end {
+						known = true
+					}
+					if o.op == "vdel:"+id && o.ret == "ok" && o.end < c.start {
+						return "search-returned-deleted", fmt.Sprintf("search [%d,%d] returned %s, deleted at [%d,%d]; calls: %s", c.start, c.end, id, o.start, o.end, describe(w.calls))
+					}
+				}
+				if !known {
+					return "search-returned-unknown", fmt.Sprintf("search returned %q; calls: %s", id, describe(w.calls))
+				}
+			}
+		}
+		return oracleAdded(w)
+	}
+}
+
+// unsubscriber drops the world's subscription (which closes its channel) — while writers emit.
+func unsubscriber(name string) explore.Thread {
+	return guard(name, func(w *world) {
+		w.do(name, "unsubscribe", "", func() string {
+			if w.sub != nil && w.e.EventBus != nil {
+				w.e.EventBus.Unsubscribe(w.sub)
+			}
+			return "ok"
 		})
 	})
 }
@@ -356,6 +435,9 @@ type oracle func(w *world) (string, string)
 func common(w *world) (string, string) {
 	if len(w.panics) > 0 {
 		return "panic", strings.Join(w.panics, "; ")
+	}
+	if v, ok := w.notes["vector-changed"]; ok {
+		return "result-changed-after-return", v
 	}
 	return "", ""
 }
@@ -509,11 +591,16 @@ func all() []scen {
 		{"get-vs-compress", ab, []explore.Thread{getter("g", "a"), compressor("c")}, nil},
 		{"get-vs-create", ab, []explore.Thread{getter("g", "a"), creator("c2", "j")}, nil},
 		{"get-vs-drop", ab, []explore.Thread{getter("g", "a"), dropper("d")}, nil},
-		{"search-vs-add-vs-delete", abc, []explore.Thread{searcher("q"), adder("w", "x"), deleter("del", "b")}, oracleAdded},
+		{"get-vs-delete-vs-add", ab, []explore.Thread{getter("g", "a"), deleter("del", "a"), adder("w", "x")}, nil},
+		{"get-vs-close", ab, []explore.Thread{getter("g", "a"), closerThenOps("c")}, oracleAfterClose},
+		{"search-vs-add-vs-delete", abc, []explore.Thread{searcher("q"), adder("w", "x"), deleter("del", "b")}, oracleSearch([]string{"a", "b", "c"}, 3)},
+		{"search-vs-delete-vs-vacuum", abc, []explore.Thread{searcher("q"), deleter("del", "b"), vacuumer("v")}, oracleSearch([]string{"a", "b", "c"}, 3)},
 		{"close-vs-writer", ab, []explore.Thread{adder("w", "x"), closerThenOps("c")}, oracleAfterClose},
 		{"close-vs-snapshot", ab, []explore.Thread{snapshotter("s"), closerThenOps("c")}, oracleAfterClose},
 		{"close-vs-close", ab, []explore.Thread{closerThenOps("c1"), closerThenOps("c2")}, oracleAfterClose},
 		{"slow-subscriber-vs-writers", setupOpt{vectors: []string{"a", "b"}, subscriber: true}, []explore.Thread{adder("w1", "x", "y"), adder("w2", "z")}, oracleAdded},
+		{"unsubscribe-vs-writer", setupOpt{vectors: []string{"a", "b"}, subscriber: true}, []explore.Thread{adder("w1", "x", "y"), unsubscriber("u")}, oracleAdded},
+		{"close-vs-writer-with-subscriber", setupOpt{vectors: []string{"a", "b"}, subscriber: true}, []explore.Thread{adder("w1", "x", "y"), closerThenOps("c")}, oracleAfterClose},
 		{"delete-vs-link", abc, []explore.Thread{deleter("del", "b"), link("l", "a", "b")}, nil},
 	}
 }
@@ -529,13 +616,9 @@ func scenarios() []*explore.Scenario {
 	var out []*explore.Scenario
 	for _, s := range all() {
 		s := s
-		for _, rr := range []bool{false, true} {
-			name := s.name
-			if rr {
-				name += "/rr"
-			}
-			out = append(out, &explore.Scenario{Name: name, Setup: newWorld(s.setup, true), Threads: s.threads, Check: check(s.check),
-				Cleanup: cleanup, Filter: schedFilter, RoundRobin: rr, Horizon: 6000})
+		for _, pol := range []string{"", "/pct"} {
+			out = append(out, &explore.Scenario{Name: s.name + pol, Setup: newWorld(s.setup, true), Threads: s.threads, Check: check(s.check),
+				Cleanup: cleanup, Filter: schedFilter, Demote: pol == "/pct", Horizon: 6000})
 		}
 	}
 	if f := os.Getenv("VERIF_SCENARIO"); f != "" {
@@ -551,7 +634,7 @@ func scenarios() []*explore.Scenario {
 }
 
 func run(c *vk.Ctx) {
-	bound := 2
+	bound := 2 // every scenario; thorough: 3, and 4 for two-thread scenarios
 	if c.Thorough() {
 		bound = 3
 	}
@@ -578,13 +661,49 @@ func run(c *vk.Ctx) {
 		vk.ReportReplay("unknown scenario "+name, nil)
 		return
 	}
+	if os.Getenv("VERIF_TRACE") != "" {
+		for _, sc := range scenarios() {
+			var pre []int
+			if v := os.Getenv("VERIF_PREFIX"); v != "" {
+				for _, f := range strings.Split(v, ",") {
+					var k int
+					fmt.Sscan(f, &k)
+					pre = append(pre, k)
+				}
+			}
+			x := explore.Run(sc, pre)
+			fmt.Println("=== schedule of", sc.Name, "prefix", pre, "->", x.Kind, x.Detail)
+			for i, p := range x.Points {
+				fmt.Printf("  %3d %-70s alts=%d %v\n", i, p.Alts[p.Choice], len(p.Alts), p.Alts)
+			}
+		}
+		return
+	}
 	var execs, points int64
 	completed := map[string]int{}
-	for b := 1; b <= bound && !c.TimeUp(); b++ {
-		for _, sc := range scenarios() {
+	sub := 4
+	if c.Thorough() {
+		sub = 8
+	}
+	maxB := bound
+	if c.Thorough() {
+		maxB = bound + 1
+	}
+	for b := 1; b <= maxB && !c.TimeUp(); b++ {
+		for si, sc := range scenarios() {
+			// work units: one scenario (x one of `sub` slices of its second-level subtrees) per
+			// shard process — an exploring process leaks memory with every engine instance it
+			// creates, so processes are kept short
+			mineUnit, slice, _ := c.Unit(si, sub)
+			if !mineUnit {
+				continue
+			}
+			if b > bound && len(sc.Threads) >= 3 {
+				continue // the extra level of the thorough tier is for two-thread scenarios
+			}
 			seen := map[string]bool{}
 			finished := true
-			st := explore.Explore(sc, b, c.MineKey, func(x *explore.Exec) bool {
+			st := explore.Explore(sc, b, slice, func(x *explore.Exec) bool {
 				c.Eval(1)
 				c.Trans(int64(len(x.Points)))
 				c.State(1)
@@ -612,11 +731,11 @@ func run(c *vk.Ctx) {
 					if len(tr) > 120 {
 						tr = append(append([]string(nil), tr[:40]...), append([]string{"..."}, tr[len(tr)-80:]...)...)
 					}
-					c.Violate(fmt.Sprintf("C13 scenario=%s violation=%s", strings.TrimSuffix(sc.Name, "/rr"), x.Kind),
+					c.Violate(fmt.Sprintf("C13 scenario=%s violation=%s", strings.TrimSuffix(sc.Name, "/pct"), x.Kind),
 						map[string]any{"detail": x.Detail, "schedule": tr, "deviations": b},
 						map[string]any{"property": "C13", "harness": "c13", "scenario": sc.Name, "choices": x.Choices})
 				} else if x.Kind != "" {
-					c.Violate(fmt.Sprintf("C13 scenario=%s violation=%s", strings.TrimSuffix(sc.Name, "/rr"), x.Kind), nil, nil)
+					c.Violate(fmt.Sprintf("C13 scenario=%s violation=%s", strings.TrimSuffix(sc.Name, "/pct"), x.Kind), nil, nil)
 				}
 				if c.TimeUp() {
 					finished = false
